@@ -345,10 +345,12 @@ pub fn fromparts_check(list: &[&str]) -> Option<String> {
         let loc = Locale::from_parts(lang, script, region, &vs, None);
         let lp: Locale = joined.parse().unwrap();
         if loc != lp { return Some(format!("Locale::from_parts(.., {:?}, None) != parsing \"{}\"", list, joined)); }
-        let with_ext: Locale = format!("{}-u-foo-ca-buddhist-t-es-ar-h0-hybrid-x-priv", joined).parse().unwrap();
-        let (a, b, c, d, e) = with_ext.clone().into_parts();
-        let back = Locale::from_parts(a, b, c, &d, Some(e.parse().unwrap()));
-        if back != with_ext { return Some(format!("Locale::from_parts(into_parts(x)) != x for x = \"{}\"", with_ext)); }
+        for ext in ["", "-x-priv", "-x-b-a", "-u-foo", "-u-ca-buddhist", "-t-es-ar", "-t-h0-hybrid", "-u-foo-ca-buddhist-t-es-ar-h0-hybrid-x-priv"] {
+            let with_ext: Locale = format!("{}{}", joined, ext).parse().unwrap();
+            let (a, b, c, d, e) = with_ext.clone().into_parts();
+            let back = Locale::from_parts(a, b, c, &d, Some(e.parse().unwrap()));
+            if back != with_ext { return Some(format!("Locale::from_parts(into_parts(x)) != x for x = \"{}\" (extension string returned by into_parts: \"{}\")", with_ext, e)); }
+        }
     }
     None
 }
